@@ -257,6 +257,7 @@ def k3_matrix(ctx):
         m = re.match(r'src/p(\d+)\.rs', p['file'])
         if m:
             p['dsl'] = smgen.dsl_defn(defs[int(m.group(1))])
+            p['defn'] = defs[int(m.group(1))]
             p['machine'] = int(m.group(1))
     sample = None
     if mods:
@@ -303,7 +304,7 @@ def run(ctx, prop, what, rep):
             if n > 6:
                 break
             rep.violate('k3', 'rustc disagrees with the model: %s: %s' % (p['kind'], p['probe']),
-                        {'kind': 'k3', 'dsl': p.get('dsl'), 'probe': p['probe'], 'what': p['kind'], 'file': p['file'], 'line': p['line']})
+                        {'kind': 'k3', 'dsl': p.get('dsl'), 'defn': p.get('defn'), 'probe': p['probe'], 'what': p['kind'], 'file': p['file'], 'line': p['line']})
         for dg in r['stray']:
             rep.note('diagnostic outside probe files: %s %s' % (dg['code'], dg['msg'][:120]))
         return
